@@ -132,13 +132,13 @@ __CPROVER_ensures((!SR_IDLE && ws->rxframe == NULL) ==> (g_rd_calls == OLD(g_rd_
  * ws_read_finish (real code, with the hand-off snapshot woven at its entry)
  * dispatches to one of these two; inside the ws_read_cb units they are
  * replaced by assigns-only contracts: they may consume the receive queues,
- * complete waiting receivers, touch queued frames and the first waiting aio.
+ * complete waiting receivers (whose aio objects the caller never looks into)
+ * and consume queued frames (length / payload cursor).
  * (They also release frames, which the caller never touches again.) */
 #define WSF_FINISH_ASSIGNS g_rxq, g_recvq, WSF_FIN_GHOSTS, WSF_ALLOC_GHOSTS, WSF_MSG_GHOSTS, WSF_CLOSE_GHOSTS; \
-	g_rxq.n >= 1 && g_rxq.n <= WSF_K: __CPROVER_object_whole(g_rxq.item[0]); \
-	g_rxq.n >= 2 && g_rxq.n <= WSF_K: __CPROVER_object_whole(g_rxq.item[1]); \
-	g_rxq.n >= 3 && g_rxq.n <= WSF_K: __CPROVER_object_whole(g_rxq.item[2]); \
-	g_recvq.n >= 1: __CPROVER_object_whole(g_recvq.head)
+	g_rxq.n >= 1 && g_rxq.n <= WSF_K: g_rxq.item[0]->len, g_rxq.item[0]->buf; \
+	g_rxq.n >= 2 && g_rxq.n <= WSF_K: g_rxq.item[1]->len, g_rxq.item[1]->buf; \
+	g_rxq.n >= 3 && g_rxq.n <= WSF_K: g_rxq.item[2]->len, g_rxq.item[2]->buf
 #ifndef WSF_FINISH_FULL
 static void ws_read_finish_msg(nni_ws *ws)
 __CPROVER_assigns(WSF_FINISH_ASSIGNS)
@@ -226,7 +226,7 @@ __CPROVER_assigns(WSF_FINISH_ASSIGNS)
 
 static void ws_read_cb(void *arg)
 __CPROVER_requires(__CPROVER_is_fresh(arg, sizeof(nni_ws)) && WSF_LISTS_PRE(WS) && VP_NO_LOCK_HELD && WS->ready && WSF_LIMITS(WS))
-__CPROVER_requires(WSF_Q_OK(g_recvq) && (g_recvq.n == 0 || __CPROVER_is_fresh(g_recvq.head, sizeof(nni_aio))))
+__CPROVER_requires(WSF_Q_OK(g_recvq))
 /* bound of the frame queue model: at most WSF_K-1 frames are queued before this one */
 __CPROVER_requires(g_rxq.n < WSF_K && g_txq.n < WSF_K && WSF_TXQ_PRE)
 __CPROVER_requires((g_rxq.n < 1 || __CPROVER_is_fresh(g_rxq.item[0], sizeof(ws_frame))) && (g_rxq.n < 2 || __CPROVER_is_fresh(g_rxq.item[1], sizeof(ws_frame))))
@@ -253,9 +253,8 @@ __CPROVER_assigns(VP_SYNC_GHOSTS, WS->closed, WS->wclose, WS->peer_closed, WS->i
 	WSF_IOV_OF(WS->rxaio), WSF_IOV_OF(WS->txaio),
 	g_recvq, g_rxq, g_txq, WSF_FIN_GHOSTS, WSF_CLOSE_GHOSTS, WSF_CTL_GHOSTS, WSF_RD_GHOSTS, WSF_WR_GHOSTS, g_io_http, WSF_ALLOC_GHOSTS, WSF_RAND_GHOSTS,
 	g_aio_close_calls, g_aio_reset_calls, g_start_calls, WSF_SNAP_GHOSTS, WSF_MSG_GHOSTS;
-	g_rxq.n >= 1: __CPROVER_object_whole(g_rxq.item[0]);
-	g_rxq.n >= 2: __CPROVER_object_whole(g_rxq.item[1]);
-	g_recvq.n >= 1: __CPROVER_object_whole(g_recvq.head)
+	g_rxq.n >= 1: g_rxq.item[0]->len, g_rxq.item[0]->buf;
+	g_rxq.n >= 2: g_rxq.item[1]->len, g_rxq.item[1]->buf
 #if WSF_CASE != WSF_NONE
 	; __CPROVER_object_whole(WS->rxframe)
 #endif
